@@ -38,6 +38,7 @@ CALLS = [
     (r'^ctor\|(nano::)?tensor_marray_storage_t[^|]*\|void \(tensor_vector_storage_t', 'ms_from_v(self, {&0})'),
     (r'^ctor\|.*(std::array|tensor_dims_t|tdims)', '{0}'),
     (r'^make_dims\|', 'nv_make_dims({0})'),
+    (r'^operator!=\|.*(tensor_dims_t|std::array)', '(!nv_dims_eq({&0}, {&1}))'), (r'^operator==\|.*(tensor_dims_t|std::array)', 'nv_dims_eq({&0}, {&1})'),
     # Eigen vector constructions (key: ctor|constructed type|constructor type)
     (r'^ctor\|(Eigen::Matrix<double, -1, 1|eigen_vector_t)[^|]*\|void \(const (Eigen::)?(EigenBase|DenseBase|MatrixBase|Map)', 'nv_evec_from_map({0})'),
     (r'^ctor\|(Eigen::Matrix<double, -1, 1|eigen_vector_t)[^|]*\|void \((const long &|long|nano::tensor_size_t)\)', 'nv_evec_new({0})'),
@@ -58,6 +59,7 @@ MEMBERS = [
     (r'^dims\|', '(*base_dims(' + B + '{self}))'),
     (r'^size\|.*(tensor_base_t|storage_t|tensor_t)', 'base_size(' + B + '{self})'),
     (r'^resize\|.*(Eigen|PlainObjectBase)', 'nv_evec_resize({self}, {0})'),
+    (r'^resize\|.*tensor_vector_storage_t', 'vs_resize_dims({self}, {&0})'),      # resize(sizes...) forwarding to resize(dims)
     (r'^data\|.*(Eigen|PlainObjectBase|Matrix)', 'nv_evec_data({self})'),
     (r'^size\|.*(Eigen|PlainObjectBase|Matrix)', 'nv_evec_size({self})'),
     (r'^swap\|.*(Eigen|PlainObjectBase|Matrix)', 'nv_evec_swap({self}, {&0})'),
